@@ -9,6 +9,7 @@ mod families;
 mod lockstep;
 mod loomrun;
 mod poschecks;
+mod replay;
 mod report;
 mod search;
 mod space;
@@ -58,7 +59,12 @@ fn main() {
     }
     let seed: u64 = std::env::var("VERIF_SEED").ok().and_then(|s| s.parse().ok()).unwrap_or(0);
     let ctx = Ctx::new(&id, &tier, seed);
-    let _ = replay;
+    if let Some(path) = &replay {
+        if !["C09", "C15", "C16", "C19", "C20"].contains(&id.as_str()) {
+            std::process::exit(replay::run(&ctx, path));
+        }
+        println!("replay of {}: the check is fast and deterministic, re-running it", id);
+    }
     let code = match id.as_str() {
         "C01" => lockstep::run(&ctx, true, false),
         "C02" => lockstep::run(&ctx, false, true),
